@@ -7,6 +7,16 @@
 //! counterexample; all nondeterminism is drawn with kani::any() in the same order in both.
 #![allow(dead_code, static_mut_refs, unused_imports, clippy::all)]
 
+/// Every mutable static of the models and harnesses is wrapped in `Tg` with a unique tag.
+/// [measured] Kani 0.68 lets a `static mut X: usize = 0` share storage with a promoted constant of the
+/// same bytes (e.g. the `cap: 0` of `Vec::new()`): incrementing the counter then changed the
+/// capacity of every empty Vec built afterwards (spurious "double free" in drop glue). A unique initial
+/// content rules the sharing out.
+pub struct Tg<T> {
+    pub v: T,
+    pub tag: u64,
+}
+
 // ---------------------------------------------------------------------------------------
 // HashMap: fixed-capacity slot array. Contract: finite map; insert on an existing key
 // replaces the value and returns the old one; iteration order unspecified (here: slot order).
@@ -149,11 +159,11 @@ pub mod leveldb {
     pub const MAXREC: usize = 5;
     pub const KLEN: usize = 33;
     pub const VMAX: usize = 100;
-    pub static mut N_REC: usize = 0;
-    pub static mut KEYS: [[u8; KLEN]; MAXREC] = [[0; KLEN]; MAXREC];
-    pub static mut KEYLEN: [usize; MAXREC] = [KLEN; MAXREC];
-    pub static mut VALS: [[u8; VMAX]; MAXREC] = [[0; VMAX]; MAXREC];
-    pub static mut VLEN: [usize; MAXREC] = [0; MAXREC];
+    pub static mut N_REC: crate::verif_models::Tg<usize> = crate::verif_models::Tg { v: 0, tag: 0x5eedc0de00000001 };
+    pub static mut KEYS: crate::verif_models::Tg<[[u8; KLEN]; MAXREC]> = crate::verif_models::Tg { v: [[0; KLEN]; MAXREC], tag: 0x5eedc0de00000002 };
+    pub static mut KEYLEN: crate::verif_models::Tg<[usize; MAXREC]> = crate::verif_models::Tg { v: [KLEN; MAXREC], tag: 0x5eedc0de00000003 };
+    pub static mut VALS: crate::verif_models::Tg<[[u8; VMAX]; MAXREC]> = crate::verif_models::Tg { v: [[0; VMAX]; MAXREC], tag: 0x5eedc0de00000004 };
+    pub static mut VLEN: crate::verif_models::Tg<[usize; MAXREC]> = crate::verif_models::Tg { v: [0; MAXREC], tag: 0x5eedc0de00000005 };
 
     #[derive(Debug)]
     pub struct Status;
@@ -184,15 +194,15 @@ pub mod leveldb {
     impl LdbIterator for DBIterator {
         fn advance(&mut self) -> bool {
             self.pos += 1;
-            self.pos <= unsafe { N_REC }
+            self.pos <= unsafe { N_REC.v }
         }
         fn current(&self, key: &mut Vec<u8>, val: &mut Vec<u8>) -> bool {
             let i = self.pos - 1;
             unsafe {
                 key.clear();
-                key.extend_from_slice(&KEYS[i][..KEYLEN[i]]);
+                key.extend_from_slice(&KEYS.v[i][..KEYLEN.v[i]]);
                 val.clear();
-                val.extend_from_slice(&VALS[i][..VLEN[i]]);
+                val.extend_from_slice(&VALS.v[i][..VLEN.v[i]]);
             }
             true
         }
@@ -202,11 +212,11 @@ pub mod leveldb {
 // ---------------------------------------------------------------------------------------
 // fs: in-memory ghost files. `File` is identified by a small integer fd derived from the
 // first byte of the path (b'0' + fd) or constructed directly with File::ghost(fd).
-//  * write(): the k-th call fails iff FAULT_AT[k], is short (1 byte) iff SHORT_AT[k]; both
+//  * write(): the k-th call fails iff FAULT_AT.v[k], is short (1 byte) iff SHORT_AT.v[k]; both
 //    schedules are pre-drawn by the harness; accepted bytes are counted per fd and the first
 //    LOGCAP bytes are kept.
-//  * read()/seek(): over DATA[fd][..LEN[fd]] (harness-provided content), or, when FUNC_ON,
-//    over an unbounded sparse file whose byte at position p is func_byte(fd, p) up to LEN64.
+//  * read()/seek(): over DATA.v[fd][..LEN.v[fd]] (harness-provided content), or, when FUNC_ON.v,
+//    over an unbounded sparse file whose byte at position p is func_byte(fd, p) up to LEN64.v.
 //  * rename(): records the call and snapshots the accepted-byte counters.
 // Contract assumed: POSIX file semantics for sequential writes, positioned reads, and rename.
 // ---------------------------------------------------------------------------------------
@@ -216,38 +226,38 @@ pub mod fs {
 
     pub const NFILES: usize = 8;
     pub const FSIZE: usize = 256;
-    pub const LOGCAP: usize = 96;
+    pub const LOGCAP: usize = 160;
 
-    pub static mut DATA: [[u8; FSIZE]; NFILES] = [[0; FSIZE]; NFILES];
-    pub static mut LEN: [usize; NFILES] = [0; NFILES];
-    pub static mut EXISTS: [bool; NFILES] = [true; NFILES];
-    pub static mut OPENS: [usize; NFILES] = [0; NFILES];
-    pub static mut LIVE: [usize; NFILES] = [0; NFILES]; // open handles currently alive
+    pub static mut DATA: crate::verif_models::Tg<[[u8; FSIZE]; NFILES]> = crate::verif_models::Tg { v: [[0; FSIZE]; NFILES], tag: 0x5eedc0de00000006 };
+    pub static mut LEN: crate::verif_models::Tg<[usize; NFILES]> = crate::verif_models::Tg { v: [0; NFILES], tag: 0x5eedc0de00000007 };
+    pub static mut EXISTS: crate::verif_models::Tg<[bool; NFILES]> = crate::verif_models::Tg { v: [true; NFILES], tag: 0x5eedc0de00000008 };
+    pub static mut OPENS: crate::verif_models::Tg<[usize; NFILES]> = crate::verif_models::Tg { v: [0; NFILES], tag: 0x5eedc0de00000009 };
+    pub static mut LIVE: crate::verif_models::Tg<[usize; NFILES]> = crate::verif_models::Tg { v: [0; NFILES], tag: 0x5eedc0de0000000a }; // open handles currently alive
 
     pub const NSCHED: usize = 12;
-    pub static mut FAULT_AT: [bool; NSCHED] = [false; NSCHED];
-    pub static mut SHORT_AT: [bool; NSCHED] = [false; NSCHED];
-    pub static mut WRITE_FAILED: bool = false;
-    pub static mut WRITE_CALLS: usize = 0;
-    pub static mut ACCEPTED: [usize; NFILES] = [0; NFILES];
-    pub static mut WLOG: [[u8; LOGCAP]; NFILES] = [[0; LOGCAP]; NFILES];
-    pub static mut FLUSHES: [usize; NFILES] = [0; NFILES];
+    pub static mut FAULT_AT: crate::verif_models::Tg<[bool; NSCHED]> = crate::verif_models::Tg { v: [false; NSCHED], tag: 0x5eedc0de0000000b };
+    pub static mut SHORT_AT: crate::verif_models::Tg<[bool; NSCHED]> = crate::verif_models::Tg { v: [false; NSCHED], tag: 0x5eedc0de0000000c };
+    pub static mut WRITE_FAILED: crate::verif_models::Tg<bool> = crate::verif_models::Tg { v: false, tag: 0x5eedc0de0000000d };
+    pub static mut WRITE_CALLS: crate::verif_models::Tg<usize> = crate::verif_models::Tg { v: 0, tag: 0x5eedc0de0000000e };
+    pub static mut ACCEPTED: crate::verif_models::Tg<[usize; NFILES]> = crate::verif_models::Tg { v: [0; NFILES], tag: 0x5eedc0de0000000f };
+    pub static mut WLOG: crate::verif_models::Tg<[[u8; LOGCAP]; NFILES]> = crate::verif_models::Tg { v: [[0; LOGCAP]; NFILES], tag: 0x5eedc0de00000010 };
+    pub static mut FLUSHES: crate::verif_models::Tg<[usize; NFILES]> = crate::verif_models::Tg { v: [0; NFILES], tag: 0x5eedc0de00000011 };
 
-    pub static mut RENAMES: usize = 0;
-    pub static mut SNAP_AT_FIRST_RENAME: [usize; NFILES] = [0; NFILES];
-    pub static mut RENAME_FAIL_AT: usize = usize::MAX;
+    pub static mut RENAMES: crate::verif_models::Tg<usize> = crate::verif_models::Tg { v: 0, tag: 0x5eedc0de00000012 };
+    pub static mut SNAP_AT_FIRST_RENAME: crate::verif_models::Tg<[usize; NFILES]> = crate::verif_models::Tg { v: [0; NFILES], tag: 0x5eedc0de00000013 };
+    pub static mut RENAME_FAIL_AT: crate::verif_models::Tg<usize> = crate::verif_models::Tg { v: usize::MAX, tag: 0x5eedc0de00000014 };
     pub const NAMECAP: usize = 40;
-    pub static mut RENAME_TO: [[u8; NAMECAP]; 4] = [[0; NAMECAP]; 4];
-    pub static mut RENAME_TO_LEN: [usize; 4] = [0; 4];
-    pub static mut RENAME_FROM: [[u8; NAMECAP]; 4] = [[0; NAMECAP]; 4];
-    pub static mut RENAME_FROM_LEN: [usize; 4] = [0; 4];
+    pub static mut RENAME_TO: crate::verif_models::Tg<[[u8; NAMECAP]; 4]> = crate::verif_models::Tg { v: [[0; NAMECAP]; 4], tag: 0x5eedc0de00000015 };
+    pub static mut RENAME_TO_LEN: crate::verif_models::Tg<[usize; 4]> = crate::verif_models::Tg { v: [0; 4], tag: 0x5eedc0de00000016 };
+    pub static mut RENAME_FROM: crate::verif_models::Tg<[[u8; NAMECAP]; 4]> = crate::verif_models::Tg { v: [[0; NAMECAP]; 4], tag: 0x5eedc0de00000017 };
+    pub static mut RENAME_FROM_LEN: crate::verif_models::Tg<[usize; 4]> = crate::verif_models::Tg { v: [0; 4], tag: 0x5eedc0de00000018 };
 
     // sparse "function" files for far offsets
-    pub static mut FUNC_ON: bool = false;
-    pub static mut LEN64: [u64; NFILES] = [0; NFILES];
-    pub static mut FUNC_SALT: [u8; NFILES] = [0; NFILES];
+    pub static mut FUNC_ON: crate::verif_models::Tg<bool> = crate::verif_models::Tg { v: false, tag: 0x5eedc0de00000019 };
+    pub static mut LEN64: crate::verif_models::Tg<[u64; NFILES]> = crate::verif_models::Tg { v: [0; NFILES], tag: 0x5eedc0de0000001a };
+    pub static mut FUNC_SALT: crate::verif_models::Tg<[u8; NFILES]> = crate::verif_models::Tg { v: [0; NFILES], tag: 0x5eedc0de0000001b };
     pub fn func_byte(fd: usize, pos: u64) -> u8 {
-        let s = unsafe { FUNC_SALT[fd] };
+        let s = unsafe { FUNC_SALT.v[fd] };
         (pos as u8) ^ ((pos >> 8) as u8).wrapping_mul(3) ^ ((pos >> 32) as u8).wrapping_mul(7) ^ s
     }
 
@@ -258,7 +268,7 @@ pub mod fs {
 
     impl File {
         pub fn ghost(fd: usize) -> File {
-            unsafe { LIVE[fd] += 1; }
+            unsafe { LIVE.v[fd] += 1; }
             File { fd, pos: 0 }
         }
         fn fd_of<P: AsRef<Path>>(p: P) -> usize {
@@ -268,53 +278,53 @@ pub mod fs {
         pub fn open<P: AsRef<Path>>(p: P) -> io::Result<File> {
             let fd = Self::fd_of(p);
             unsafe {
-                if !EXISTS[fd] {
+                if !EXISTS.v[fd] {
                     return Err(io::Error::from(io::ErrorKind::NotFound));
                 }
-                OPENS[fd] += 1;
+                OPENS.v[fd] += 1;
             }
             Ok(File::ghost(fd))
         }
         pub fn create<P: AsRef<Path>>(p: P) -> io::Result<File> {
             let fd = Self::fd_of(p);
-            unsafe { ACCEPTED[fd] = 0; LEN[fd] = 0; EXISTS[fd] = true; }
+            unsafe { ACCEPTED.v[fd] = 0; LEN.v[fd] = 0; EXISTS.v[fd] = true; }
             Ok(File::ghost(fd))
         }
     }
     impl Drop for File {
         fn drop(&mut self) {
-            unsafe { LIVE[self.fd] -= 1; }
+            unsafe { LIVE.v[self.fd] -= 1; }
         }
     }
 
     impl Write for File {
         fn write(&mut self, buf: &[u8]) -> io::Result<usize> {
             unsafe {
-                let call = WRITE_CALLS;
-                WRITE_CALLS += 1;
+                let call = WRITE_CALLS.v;
+                WRITE_CALLS.v += 1;
                 // fault schedule pre-drawn by the harness (no kani::any() here: the native replay
                 // must see the same schedule whatever the number of write calls)
-                if call < NSCHED && FAULT_AT[call] {
-                    WRITE_FAILED = true;
+                if call < NSCHED && FAULT_AT.v[call] {
+                    WRITE_FAILED.v = true;
                     return Err(io::Error::from(io::ErrorKind::Other));
                 }
                 let mut n = buf.len();
-                if call < NSCHED && SHORT_AT[call] && n > 1 {
+                if call < NSCHED && SHORT_AT.v[call] && n > 1 {
                     n = 1;
                 }
                 let fd = self.fd;
                 let mut i = 0;
                 while i < n {
-                    let at = ACCEPTED[fd] + i;
-                    if at < LOGCAP { WLOG[fd][at] = buf[i]; }
+                    let at = ACCEPTED.v[fd] + i;
+                    if at < LOGCAP { WLOG.v[fd][at] = buf[i]; }
                     i += 1;
                 }
-                ACCEPTED[fd] += n;
+                ACCEPTED.v[fd] += n;
                 Ok(n)
             }
         }
         fn flush(&mut self) -> io::Result<()> {
-            unsafe { FLUSHES[self.fd] += 1; }
+            unsafe { FLUSHES.v[self.fd] += 1; }
             Ok(())
         }
     }
@@ -322,8 +332,8 @@ pub mod fs {
     impl Read for File {
         fn read(&mut self, buf: &mut [u8]) -> io::Result<usize> {
             unsafe {
-                if FUNC_ON {
-                    let len = LEN64[self.fd];
+                if FUNC_ON.v {
+                    let len = LEN64.v[self.fd];
                     if self.pos >= len { return Ok(0); }
                     let avail = len - self.pos;
                     let n = if (buf.len() as u64) < avail { buf.len() } else { avail as usize };
@@ -332,13 +342,13 @@ pub mod fs {
                     self.pos += n as u64;
                     return Ok(n);
                 }
-                let len = LEN[self.fd] as u64;
+                let len = LEN.v[self.fd] as u64;
                 if self.pos >= len { return Ok(0); }
                 let avail = (len - self.pos) as usize;
                 let n = if buf.len() < avail { buf.len() } else { avail };
                 let p = self.pos as usize;
                 let mut i = 0;
-                while i < n { buf[i] = DATA[self.fd][p + i]; i += 1; }
+                while i < n { buf[i] = DATA.v[self.fd][p + i]; i += 1; }
                 self.pos += n as u64;
                 Ok(n)
             }
@@ -346,7 +356,7 @@ pub mod fs {
     }
     impl Seek for File {
         fn seek(&mut self, pos: SeekFrom) -> io::Result<u64> {
-            let len = unsafe { if FUNC_ON { LEN64[self.fd] } else { LEN[self.fd] as u64 } };
+            let len = unsafe { if FUNC_ON.v { LEN64.v[self.fd] } else { LEN.v[self.fd] as u64 } };
             let np: i128 = match pos {
                 SeekFrom::Start(p) => p as i128,
                 SeekFrom::Current(d) => self.pos as i128 + d as i128,
@@ -370,15 +380,15 @@ pub mod fs {
 
     pub fn rename<P: AsRef<Path>, Q: AsRef<Path>>(from: P, to: Q) -> io::Result<()> {
         unsafe {
-            if RENAMES == RENAME_FAIL_AT {
+            if RENAMES.v == RENAME_FAIL_AT.v {
                 return Err(io::Error::from(io::ErrorKind::Other));
             }
-            if RENAMES == 0 { SNAP_AT_FIRST_RENAME = ACCEPTED; }
-            if RENAMES < 4 {
-                RENAME_TO_LEN[RENAMES] = copy_name(to.as_ref(), &mut RENAME_TO[RENAMES]);
-                RENAME_FROM_LEN[RENAMES] = copy_name(from.as_ref(), &mut RENAME_FROM[RENAMES]);
+            if RENAMES.v == 0 { SNAP_AT_FIRST_RENAME.v = ACCEPTED.v; }
+            if RENAMES.v < 4 {
+                RENAME_TO_LEN.v[RENAMES.v] = copy_name(to.as_ref(), &mut RENAME_TO.v[RENAMES.v]);
+                RENAME_FROM_LEN.v[RENAMES.v] = copy_name(from.as_ref(), &mut RENAME_FROM.v[RENAMES.v]);
             }
-            RENAMES += 1;
+            RENAMES.v += 1;
         }
         Ok(())
     }
@@ -392,22 +402,22 @@ pub mod fs {
 // process / time: exit records the code and ends the path; Instant::now is a constant.
 // ---------------------------------------------------------------------------------------
 pub mod process {
-    pub static mut EXIT_CODE: i32 = -1;
-    pub static mut EXITED: bool = false;
+    pub static mut EXIT_CODE: crate::verif_models::Tg<i32> = crate::verif_models::Tg { v: -1, tag: 0x5eedc0de0000001c };
+    pub static mut EXITED: crate::verif_models::Tg<bool> = crate::verif_models::Tg { v: false, tag: 0x5eedc0de0000001d };
     /// Hook evaluated at exit time (assertions about the state when the process would die).
-    pub static mut AT_EXIT: Option<fn(i32)> = None;
+    pub static mut AT_EXIT: crate::verif_models::Tg<Option<fn(i32)>> = crate::verif_models::Tg { v: None, tag: 0x5eedc0de0000001e };
     pub struct ExitMarker(pub i32);
     pub fn exit(code: i32) -> ! {
         unsafe {
-            EXIT_CODE = code;
-            EXITED = true;
-            if let Some(f) = AT_EXIT { f(code); }
+            EXIT_CODE.v = code;
+            EXITED.v = true;
+            if let Some(f) = AT_EXIT.v { f(code); }
         }
         exit_end(code)
     }
     #[cfg(test)]
     fn exit_end(code: i32) -> ! {
-        // native replay: the AT_EXIT assertions passed; end the test process cleanly
+        // native replay: the AT_EXIT.v assertions passed; end the test process cleanly
         println!("VERIF_EXIT_MODEL code={}", code);
         std::process::exit(0)
     }
@@ -449,43 +459,43 @@ pub mod ghost {
 
     pub const MAXCALLS: usize = 12;
     pub const PRE: usize = 272;
-    pub static mut DIGESTS: [[u8; 32]; MAXCALLS] = [[0; 32]; MAXCALLS];
-    pub static mut N_FIN: usize = 0;
-    pub static mut CUR: [u8; PRE] = [0; PRE];
-    pub static mut CUR_LEN: usize = 0;
-    pub static mut LOG: [[u8; PRE]; MAXCALLS] = [[0; PRE]; MAXCALLS];
-    pub static mut LOG_LEN: [usize; MAXCALLS] = [0; MAXCALLS];
-    pub static mut LOG_KIND: [u8; MAXCALLS] = [0; MAXCALLS]; // 1 = sha256d, 2 = hash160
+    pub static mut DIGESTS: crate::verif_models::Tg<[[u8; 32]; MAXCALLS]> = crate::verif_models::Tg { v: [[0; 32]; MAXCALLS], tag: 0x5eedc0de0000001f };
+    pub static mut N_FIN: crate::verif_models::Tg<usize> = crate::verif_models::Tg { v: 0, tag: 0x5eedc0de00000020 };
+    pub static mut CUR: crate::verif_models::Tg<[u8; PRE]> = crate::verif_models::Tg { v: [0; PRE], tag: 0x5eedc0de00000021 };
+    pub static mut CUR_LEN: crate::verif_models::Tg<usize> = crate::verif_models::Tg { v: 0, tag: 0x5eedc0de00000022 };
+    pub static mut LOG: crate::verif_models::Tg<[[u8; PRE]; MAXCALLS]> = crate::verif_models::Tg { v: [[0; PRE]; MAXCALLS], tag: 0x5eedc0de00000023 };
+    pub static mut LOG_LEN: crate::verif_models::Tg<[usize; MAXCALLS]> = crate::verif_models::Tg { v: [0; MAXCALLS], tag: 0x5eedc0de00000024 };
+    pub static mut LOG_KIND: crate::verif_models::Tg<[u8; MAXCALLS]> = crate::verif_models::Tg { v: [0; MAXCALLS], tag: 0x5eedc0de00000025 }; // 1 = sha256d, 2 = hash160
 
     pub fn init(d: [[u8; 32]; MAXCALLS]) {
-        unsafe { DIGESTS = d; }
+        unsafe { DIGESTS.v = d; }
     }
 
     pub fn stub_engine_input(_e: &mut sha256::HashEngine, data: &[u8]) {
         unsafe {
-            let l = CUR_LEN;
+            let l = CUR_LEN.v;
             let n = data.len();
             // element loops, not copy_from_slice: CBMC's memcpy model on these arrays is far slower [measured]
             if l + n <= PRE {
                 let mut i = 0;
-                while i < n { CUR[l + i] = data[i]; i += 1; }
+                while i < n { CUR.v[l + i] = data[i]; i += 1; }
             }
-            CUR_LEN = l + n;
+            CUR_LEN.v = l + n;
         }
     }
     fn fin(kind: u8) -> [u8; 32] {
         unsafe {
-            let k = N_FIN;
+            let k = N_FIN.v;
             if k >= MAXCALLS {
                 panic!("verif model: hash call log capacity exceeded");
             }
             let mut i = 0;
-            while i < CUR_LEN && i < PRE { LOG[k][i] = CUR[i]; i += 1; }
-            LOG_LEN[k] = CUR_LEN;
-            LOG_KIND[k] = kind;
-            CUR_LEN = 0;
-            N_FIN = k + 1;
-            DIGESTS[k]
+            while i < CUR_LEN.v && i < PRE { LOG.v[k][i] = CUR.v[i]; i += 1; }
+            LOG_LEN.v[k] = CUR_LEN.v;
+            LOG_KIND.v[k] = kind;
+            CUR_LEN.v = 0;
+            N_FIN.v = k + 1;
+            DIGESTS.v[k]
         }
     }
     pub fn stub_sha256d_fin(_e: sha256::HashEngine) -> sha256d::Hash {
@@ -518,8 +528,8 @@ pub mod ghost {
     #[cfg(not(test))]
     pub fn sha256d_call(k: usize, pre: &[u8]) -> Option<[u8; 32]> {
         unsafe {
-            if k < N_FIN && LOG_KIND[k] == 1 && LOG_LEN[k] == pre.len() && pre.len() <= PRE && same(&LOG[k][..pre.len()], pre) {
-                Some(DIGESTS[k])
+            if k < N_FIN.v && LOG_KIND.v[k] == 1 && LOG_LEN.v[k] == pre.len() && pre.len() <= PRE && same(&LOG.v[k][..pre.len()], pre) {
+                Some(DIGESTS.v[k])
             } else {
                 None
             }
@@ -532,10 +542,10 @@ pub mod ghost {
     #[cfg(not(test))]
     pub fn hash160_call(k: usize, pre: &[u8]) -> Option<[u8; 20]> {
         unsafe {
-            if k < N_FIN && LOG_KIND[k] == 2 && LOG_LEN[k] == pre.len() && pre.len() <= PRE && same(&LOG[k][..pre.len()], pre) {
+            if k < N_FIN.v && LOG_KIND.v[k] == 2 && LOG_LEN.v[k] == pre.len() && pre.len() <= PRE && same(&LOG.v[k][..pre.len()], pre) {
                 let mut o = [0u8; 20];
                 let mut i = 0;
-                while i < 20 { o[i] = DIGESTS[k][i]; i += 1; }
+                while i < 20 { o[i] = DIGESTS.v[k][i]; i += 1; }
                 Some(o)
             } else {
                 None
@@ -549,7 +559,7 @@ pub mod ghost {
     /// Number of hash computations performed (CBMC mode); natively unknown -> returns `expect`.
     #[cfg(not(test))]
     pub fn n_hash_calls(_expect: usize) -> usize {
-        unsafe { N_FIN }
+        unsafe { N_FIN.v }
     }
     #[cfg(test)]
     pub fn n_hash_calls(expect: usize) -> usize {
@@ -558,18 +568,18 @@ pub mod ghost {
 
     // ---- encoders --------------------------------------------------------------------
     pub const ENC: usize = 272;
-    pub static mut B58_CALLS: usize = 0;
-    pub static mut B58_LEN: usize = 0;
-    pub static mut B58: [u8; ENC] = [0; ENC];
-    pub static mut B58CK_CALLS: usize = 0;
-    pub static mut B58CK_LEN: usize = 0;
-    pub static mut B58CK: [u8; ENC] = [0; ENC];
-    pub static mut BECH_CALLS: usize = 0;
-    pub static mut BECH_LEN: usize = 0;
-    pub static mut BECH: [u8; ENC] = [0; ENC];
-    pub static mut BECH_VER: u8 = 0xff;
-    pub static mut BECH_HRP: [u8; 4] = [0; 4];
-    pub static mut BECH_HRP_LEN: usize = 0;
+    pub static mut B58_CALLS: crate::verif_models::Tg<usize> = crate::verif_models::Tg { v: 0, tag: 0x5eedc0de00000026 };
+    pub static mut B58_LEN: crate::verif_models::Tg<usize> = crate::verif_models::Tg { v: 0, tag: 0x5eedc0de00000027 };
+    pub static mut B58: crate::verif_models::Tg<[u8; ENC]> = crate::verif_models::Tg { v: [0; ENC], tag: 0x5eedc0de00000028 };
+    pub static mut B58CK_CALLS: crate::verif_models::Tg<usize> = crate::verif_models::Tg { v: 0, tag: 0x5eedc0de00000029 };
+    pub static mut B58CK_LEN: crate::verif_models::Tg<usize> = crate::verif_models::Tg { v: 0, tag: 0x5eedc0de0000002a };
+    pub static mut B58CK: crate::verif_models::Tg<[u8; ENC]> = crate::verif_models::Tg { v: [0; ENC], tag: 0x5eedc0de0000002b };
+    pub static mut BECH_CALLS: crate::verif_models::Tg<usize> = crate::verif_models::Tg { v: 0, tag: 0x5eedc0de0000002c };
+    pub static mut BECH_LEN: crate::verif_models::Tg<usize> = crate::verif_models::Tg { v: 0, tag: 0x5eedc0de0000002d };
+    pub static mut BECH: crate::verif_models::Tg<[u8; ENC]> = crate::verif_models::Tg { v: [0; ENC], tag: 0x5eedc0de0000002e };
+    pub static mut BECH_VER: crate::verif_models::Tg<u8> = crate::verif_models::Tg { v: 0xff, tag: 0x5eedc0de0000002f };
+    pub static mut BECH_HRP: crate::verif_models::Tg<[u8; 4]> = crate::verif_models::Tg { v: [0; 4], tag: 0x5eedc0de00000030 };
+    pub static mut BECH_HRP_LEN: crate::verif_models::Tg<usize> = crate::verif_models::Tg { v: 0, tag: 0x5eedc0de00000031 };
 
     fn rec(dst: &mut [u8; ENC], data: &[u8]) -> usize {
         let n = data.len();
@@ -582,30 +592,30 @@ pub mod ghost {
     /// stub for bitcoin::base58::encode (fork-coin path): records payload, returns "A"
     pub fn stub_b58(data: &[u8]) -> String {
         unsafe {
-            B58_CALLS += 1;
-            B58_LEN = rec(&mut B58, data);
+            B58_CALLS.v += 1;
+            B58_LEN.v = rec(&mut B58.v, data);
         }
         String::from("A")
     }
     /// stub for bitcoin::base58::encode_check_to_fmt (rust-bitcoin Address Display)
     pub fn stub_b58ck_fmt(f: &mut fmt::Formatter, data: &[u8]) -> fmt::Result {
         unsafe {
-            B58CK_CALLS += 1;
-            B58CK_LEN = rec(&mut B58CK, data);
+            B58CK_CALLS.v += 1;
+            B58CK_LEN.v = rec(&mut B58CK.v, data);
         }
         f.write_str("A")
     }
     /// stub for bech32::segwit::encode_lower_to_fmt_unchecked
     pub fn stub_bech<W: fmt::Write>(f: &mut W, hrp: bitcoin::bech32::Hrp, v: bitcoin::bech32::Fe32, p: &[u8]) -> fmt::Result {
         unsafe {
-            BECH_CALLS += 1;
-            BECH_LEN = rec(&mut BECH, p);
-            BECH_VER = v.to_u8();
+            BECH_CALLS.v += 1;
+            BECH_LEN.v = rec(&mut BECH.v, p);
+            BECH_VER.v = v.to_u8();
             let h = hrp.as_bytes();
-            BECH_HRP_LEN = h.len();
+            BECH_HRP_LEN.v = h.len();
             let mut i = 0;
             while i < 4 && i < h.len() {
-                BECH_HRP[i] = h[i];
+                BECH_HRP.v[i] = h[i];
                 i += 1;
             }
         }
@@ -618,7 +628,7 @@ pub mod ghost {
     // `*_addr_ok` compares the produced text (CBMC: the stub's sentinel; native: the real encoding).
     #[cfg(not(test))]
     pub fn b58_payload_is(payload: &[u8]) -> bool {
-        unsafe { B58_CALLS == 1 && B58_LEN == payload.len() && same(&B58[..payload.len()], payload) }
+        unsafe { B58_CALLS.v == 1 && B58_LEN.v == payload.len() && same(&B58.v[..payload.len()], payload) }
     }
     #[cfg(test)]
     pub fn b58_payload_is(_payload: &[u8]) -> bool {
@@ -634,7 +644,7 @@ pub mod ghost {
     }
     #[cfg(not(test))]
     pub fn b58ck_payload_is(payload: &[u8]) -> bool {
-        unsafe { B58CK_CALLS == 1 && B58CK_LEN == payload.len() && same(&B58CK[..payload.len()], payload) }
+        unsafe { B58CK_CALLS.v == 1 && B58CK_LEN.v == payload.len() && same(&B58CK.v[..payload.len()], payload) }
     }
     #[cfg(test)]
     pub fn b58ck_payload_is(_payload: &[u8]) -> bool {
@@ -652,8 +662,8 @@ pub mod ghost {
     pub fn bech_payload_is(hrp: &str, ver: u8, prog: &[u8]) -> bool {
         unsafe {
             let h = hrp.as_bytes();
-            BECH_CALLS == 1 && BECH_VER == ver && BECH_LEN == prog.len() && same(&BECH[..prog.len()], prog)
-                && BECH_HRP_LEN == h.len() && same(&BECH_HRP[..h.len()], h)
+            BECH_CALLS.v == 1 && BECH_VER.v == ver && BECH_LEN.v == prog.len() && same(&BECH.v[..prog.len()], prog)
+                && BECH_HRP_LEN.v == h.len() && same(&BECH_HRP.v[..h.len()], h)
         }
     }
     #[cfg(test)]
@@ -673,7 +683,7 @@ pub mod ghost {
     /// Number of encoder calls (CBMC mode) — natively returns `expect`.
     #[cfg(not(test))]
     pub fn n_encoder_calls(_expect: usize) -> usize {
-        unsafe { B58_CALLS + B58CK_CALLS + BECH_CALLS }
+        unsafe { B58_CALLS.v + B58CK_CALLS.v + BECH_CALLS.v }
     }
     #[cfg(test)]
     pub fn n_encoder_calls(expect: usize) -> usize {
@@ -697,10 +707,10 @@ pub mod hooks {
     use std::path::Path;
 
     // ---- BlkFile::read_block: marker block carrying (file id, offset) -----------------
-    pub static mut RB_STUB_ON: bool = false;
-    pub static mut RB_CALLS: usize = 0;
-    pub static mut RB_FILE: [u64; 8] = [0; 8];
-    pub static mut RB_OFFSET: [u64; 8] = [0; 8];
+    pub static mut RB_STUB_ON: crate::verif_models::Tg<bool> = crate::verif_models::Tg { v: false, tag: 0x5eedc0de00000032 };
+    pub static mut RB_CALLS: crate::verif_models::Tg<usize> = crate::verif_models::Tg { v: 0, tag: 0x5eedc0de00000033 };
+    pub static mut RB_FILE: crate::verif_models::Tg<[u64; 8]> = crate::verif_models::Tg { v: [0; 8], tag: 0x5eedc0de00000034 };
+    pub static mut RB_OFFSET: crate::verif_models::Tg<[u64; 8]> = crate::verif_models::Tg { v: [0; 8], tag: 0x5eedc0de00000035 };
 
     pub fn file_id(p: &Path) -> u64 {
         let b = p.as_os_str().as_encoded_bytes();
@@ -708,11 +718,11 @@ pub mod hooks {
     }
     pub fn marker_block(file: u64, offset: u64) -> Block {
         unsafe {
-            if RB_CALLS < 8 {
-                RB_FILE[RB_CALLS] = file;
-                RB_OFFSET[RB_CALLS] = offset;
+            if RB_CALLS.v < 8 {
+                RB_FILE.v[RB_CALLS.v] = file;
+                RB_OFFSET.v[RB_CALLS.v] = offset;
             }
-            RB_CALLS += 1;
+            RB_CALLS.v += 1;
         }
         let z = sha256d::Hash::all_zeros();
         let header = BlockHeader { version: file as u32, prev_hash: z, merkle_root: z, timestamp: (offset >> 32) as u32, bits: 0, nonce: offset as u32 };
@@ -720,11 +730,11 @@ pub mod hooks {
     }
 
     // ---- ChainStorage::get_block: the contract proved by the get_block_one harness ------
-    pub static mut GB_STUB_ON: bool = false;
-    pub static mut GB_CALLS: usize = 0;
-    pub static mut GB_HEIGHTS: [u64; 8] = [0; 8];
-    pub static mut GB_NONE_AT: usize = usize::MAX; // concrete call number answering Ok(None)
-    pub static mut GB_ERR_AT: usize = usize::MAX; // concrete call number answering Err
+    pub static mut GB_STUB_ON: crate::verif_models::Tg<bool> = crate::verif_models::Tg { v: false, tag: 0x5eedc0de00000036 };
+    pub static mut GB_CALLS: crate::verif_models::Tg<usize> = crate::verif_models::Tg { v: 0, tag: 0x5eedc0de00000037 };
+    pub static mut GB_HEIGHTS: crate::verif_models::Tg<[u64; 8]> = crate::verif_models::Tg { v: [0; 8], tag: 0x5eedc0de00000038 };
+    pub static mut GB_NONE_AT: crate::verif_models::Tg<usize> = crate::verif_models::Tg { v: usize::MAX, tag: 0x5eedc0de00000039 }; // concrete call number answering Ok(None)
+    pub static mut GB_ERR_AT: crate::verif_models::Tg<usize> = crate::verif_models::Tg { v: usize::MAX, tag: 0x5eedc0de0000003a }; // concrete call number answering Err
 
     pub fn height_block(height: u64) -> Block {
         let z = sha256d::Hash::all_zeros();
@@ -733,15 +743,15 @@ pub mod hooks {
     }
     pub fn get_block_contract(height: u64) -> crate::common::Result<Option<Block>> {
         let k = unsafe {
-            let k = GB_CALLS;
-            if k < 8 { GB_HEIGHTS[k] = height; }
-            GB_CALLS += 1;
+            let k = GB_CALLS.v;
+            if k < 8 { GB_HEIGHTS.v[k] = height; }
+            GB_CALLS.v += 1;
             k
         };
-        if k == unsafe { GB_NONE_AT } {
+        if k == unsafe { GB_NONE_AT.v } {
             return Ok(None);
         }
-        if k == unsafe { GB_ERR_AT } {
+        if k == unsafe { GB_ERR_AT.v } {
             return Err("verif: injected read error".into());
         }
         Ok(Some(height_block(height)))
@@ -755,9 +765,9 @@ pub mod hooks {
 // formatting machinery; the switch behaves identically in the native replay.
 // ---------------------------------------------------------------------------------------
 pub mod fmtm {
-    pub static mut CONST_ROWS: bool = false;
+    pub static mut CONST_ROWS: crate::verif_models::Tg<bool> = crate::verif_models::Tg { v: false, tag: 0x5eedc0de0000003b };
     pub fn format(args: core::fmt::Arguments<'_>) -> String {
-        if unsafe { CONST_ROWS } {
+        if unsafe { CONST_ROWS.v } {
             String::from("ab")
         } else {
             alloc_format(args)
@@ -765,5 +775,32 @@ pub mod fmtm {
     }
     fn alloc_format(args: core::fmt::Arguments<'_>) -> String {
         std::fmt::format(args)
+    }
+
+    // println! shadow (opreturn.rs): formats with the real core::fmt into a ghost buffer
+    pub const OUTCAP: usize = 512;
+    pub static mut OUT: crate::verif_models::Tg<[u8; OUTCAP]> = crate::verif_models::Tg { v: [0; OUTCAP], tag: 0x5eedc0de0000003c };
+    pub static mut OUT_LEN: crate::verif_models::Tg<usize> = crate::verif_models::Tg { v: 0, tag: 0x5eedc0de0000003d };
+    pub static mut LINES: crate::verif_models::Tg<usize> = crate::verif_models::Tg { v: 0, tag: 0x5eedc0de0000003e };
+    struct Sink;
+    impl core::fmt::Write for Sink {
+        fn write_str(&mut self, s: &str) -> core::fmt::Result {
+            let b = s.as_bytes();
+            unsafe {
+                let mut i = 0;
+                while i < b.len() {
+                    if OUT_LEN.v < OUTCAP { OUT.v[OUT_LEN.v] = b[i]; }
+                    OUT_LEN.v += 1;
+                    i += 1;
+                }
+            }
+            Ok(())
+        }
+    }
+    pub fn println(args: core::fmt::Arguments<'_>) {
+        let mut w = Sink;
+        let _ = core::fmt::write(&mut w, args);
+        let _ = core::fmt::Write::write_str(&mut w, "\n");
+        unsafe { LINES.v += 1; }
     }
 }
